@@ -183,6 +183,10 @@ class Sym(object):
 
 def binop(op, a, b):
     """numeric / boolean binary operation over numbers, Sym, Lane, Arr2"""
+    if isinstance(a, GenList):
+        a = a.lane
+    if isinstance(b, GenList):
+        b = b.lane
     if isinstance(a, Arr2) or isinstance(b, Arr2):
         return _arr2_binop(op, a, b)
     if isinstance(a, Lane) or isinstance(b, Lane):
